@@ -206,7 +206,9 @@ func (e *Exec) bitop(op token.Token, x, y string, t types.Type) string {
 		}
 	}
 	_ = cx
-	if yc && cy.Sign() >= 0 && !signed {
+	// with floor division, bit k of a negative two's-complement number is (x div 2^k) mod 2 as well,
+	// so small non-negative constant masks are exact for signed operands too
+	if yc && cy.Sign() >= 0 && (!signed || uint(cy.BitLen()) < w-1) {
 		switch op {
 		case token.AND:
 			// mask 2^k-1
@@ -415,6 +417,10 @@ func (e *Exec) seqFun() string {
 	if !e.sc.declared["seq"] {
 		e.sc.declFun("seq", []string{"(Array Int Int)", "Int", "Int"}, "(Array Int Int)")
 		e.sc.axiom("seq", "(forall ((a (Array Int Int)) (o Int) (n Int) (i Int)) (! (= (select (seq a o n) i) (ite (and (<= 0 i) (< i n)) (select a (+ o i)) 0)) :pattern ((select (seq a o n) i))))")
+		// extensionality for sequences, in triggerable form: two sequences of the same length are
+		// equal unless they differ at the witness index seqdiff
+		e.sc.declFun("seqdiff", []string{"(Array Int Int)", "Int", "(Array Int Int)", "Int", "Int"}, "Int")
+		e.sc.axiom("seq_ext", "(forall ((a (Array Int Int)) (o Int) (b (Array Int Int)) (p Int) (n Int)) (! (or (= (seq a o n) (seq b p n)) (and (<= 0 (seqdiff a o b p n)) (< (seqdiff a o b p n) n) (not (= (select a (+ o (seqdiff a o b p n))) (select b (+ p (seqdiff a o b p n))))))) :pattern ((seq a o n) (seq b p n))))")
 	}
 	return "seq"
 }
@@ -704,6 +710,12 @@ func (e *Exec) instrAlloc(fr *Frame, st *State, x *ssa.Alloc) {
 		m := e.boxHeap(t)
 		e.hset(st, m, sto(e.hget(st, m), ref, e.sc.zeroOf(t)))
 		fr.regs[x] = Val{T: ref, Typ: x.Type(), NonNil: true, Loc: &Loc{Kind: LBox, Base: ref, Typ: t}}
+		if nt, ok := types.Unalias(t).(*types.Named); ok && nt.Obj().Pkg() != nil && nt.Obj().Pkg().Path() == "bytes" && nt.Obj().Name() == "Buffer" {
+			// new(bytes.Buffer): empty ghost FIFO
+			e.bufferMaps()
+			e.hset(st, "GB_bufrd", sto(e.hget(st, "GB_bufrd"), ref, "0"))
+			e.hset(st, "GB_bufwr", sto(e.hget(st, "GB_bufwr"), ref, "0"))
+		}
 	default:
 		key := fmt.Sprintf("f%d.%s.%d", fr.id, x.Comment, len(fr.regs))
 		st.cells[key] = e.sc.zeroOf(t)
